@@ -26,6 +26,7 @@ type op struct {
 	Mode   string `json:"mode,omitempty"`   // retention: GOVERNANCE / COMPLIANCE
 	Until  int    `json:"until,omitempty"`  // retention: minutes from now (negative = past)
 	Grant  bool   `json:"grant,omitempty"`  // policy: grant the caller s3:BypassGovernanceRetention
+	Pos    int    `json:"pos,omitempty"`    // batch: 0-2 unprotected keys before the protected one, >= 3: one after it as well; lockcfg: odd = empty configuration
 }
 
 type caseA struct {
@@ -242,7 +243,22 @@ func execA(c caseA) (st stats, err error) {
 			if c.Versioned && vid != "" && o.Mode == "COMPLIANCE" { // reuse a drawn bit: with or without version id
 				kv.V = vid
 			}
-			r, err = cl.Call("POST", "/"+b, s3c.Q("delete", ""), hdr, s3c.DeleteXML([]s3c.KV{kv}, false))
+			// the protected key travels among unprotected ones, before and / or after it (a per-request
+			// decision taken on one key must not carry over to its neighbours)
+			var list []s3c.KV
+			for d := 0; d < o.Pos%3; d++ {
+				dk := fmt.Sprintf("decoy-%d-%d", i, d)
+				cl.Call("PUT", "/"+b+"/"+dk, nil, nil, []byte("unprotected"))
+				root.Call("PUT", "/"+b+"/"+dk, s3c.Q("retention", ""), []s3c.KV{{K: "x-amz-bypass-governance-retention", V: "true"}}, retXML("GOVERNANCE", time.Now().Add(-time.Hour)))
+				list = append(list, s3c.KV{K: dk})
+			}
+			list = append(list, kv)
+			if o.Pos >= 3 {
+				dk := fmt.Sprintf("zdecoy-%d", i)
+				cl.Call("PUT", "/"+b+"/"+dk, nil, nil, []byte("unprotected"))
+				list = append(list, s3c.KV{K: dk})
+			}
+			r, err = cl.Call("POST", "/"+b, s3c.Q("delete", ""), hdr, s3c.DeleteXML(list, false))
 			destructive = true
 		case "delbucket":
 			r, err = cl.Call("DELETE", "/"+b, nil, hdr, nil)
@@ -284,7 +300,15 @@ func execA(c caseA) (st stats, err error) {
 				ms.hold = o.Kind == "holdon" // switched by a request the gateway authorised
 			}
 		case "lockcfg":
-			r, err = cl.Call("PUT", "/"+b, s3c.Q("object-lock", ""), nil, []byte("<ObjectLockConfiguration><ObjectLockEnabled>Enabled</ObjectLockEnabled></ObjectLockConfiguration>"))
+			doc := "<ObjectLockConfiguration><ObjectLockEnabled>Enabled</ObjectLockEnabled></ObjectLockConfiguration>"
+			if o.Pos%2 == 1 {
+				if kf.Open(lockOffFinding) && !strict {
+					ev.Exclude("known finding " + lockOffFinding + ": lock configuration without ObjectLockEnabled")
+				} else {
+					doc = "<ObjectLockConfiguration/>" // an attempt to switch object lock off altogether
+				}
+			}
+			r, err = cl.Call("PUT", "/"+b, s3c.Q("object-lock", ""), nil, []byte(doc))
 			if err == nil && r.OK() && ms.deflt != "" {
 				// The default retention rule is gone. Under S3 the retention of existing objects
 				// is not affected by that; the gateway keeps no per-object copy of it, so from
@@ -369,9 +393,22 @@ func opGen() *rapid.Generator[op] {
 		o.Bypass = rapid.Bool().Draw(t, "bypass")
 		o.Mode = rapid.SampledFrom([]string{"GOVERNANCE", "COMPLIANCE"}).Draw(t, "mode")
 		o.Until = rapid.SampledFrom([]int{5, 30, 59, 61, 120, 1, -5}).Draw(t, "until")
+		if o.Kind == "batch" || o.Kind == "lockcfg" {
+			o.Pos = rapid.IntRange(0, 5).Draw(t, "pos")
+		}
 		o.Grant = rapid.Bool().Draw(t, "grant")
 		return o
 	})
+}
+
+const lockOffFinding = "C10-lock-configuration-switches-object-lock-off"
+
+var strict bool // replay of an open finding: nothing excluded
+
+func runStrict(c caseA) error {
+	strict = true
+	defer func() { strict = false }()
+	return runA(c)
 }
 
 func known(c caseA, err error) string {
@@ -419,7 +456,7 @@ func TestC10A(t *testing.T) {
 	})
 }
 
-var handlers = map[string]pt.Handler{"C10A": pt.Wrap(runA)}
+var handlers = map[string]pt.Handler{"C10A": pt.Wrap(runA), "C10S": pt.Wrap(runStrict)}
 
 func TestReplay(t *testing.T) { pt.Replay(t, handlers) }
 func TestKnown(t *testing.T)  { pt.Known(t, "C10", handlers) }
